@@ -48,6 +48,10 @@ def instances(tier):
         for param in ("endpoints", "width"):
             out.append(dict(id="hermite-%s-%s" % ("x".join(map(str, sh)) or "scalar", param), kind="hermite", shape=list(sh), param=param,
                             budget=dict(wall_s=120, max_paths=200)))
+    for kt in ("int", "int64"):
+        for knots in ((0, 2), (3, -1)) if tier == "quick" else ((0, 2), (3, -1), (-4, 1), (1, 2)):
+            out.append(dict(id="hermite-2-intknots-%s-%d_%d" % (kt, knots[0], knots[1]), kind="hermite", shape=[2], param="intknots", knots=list(knots), knot_type=kt,
+                            budget=dict(wall_s=120, max_paths=200)))
     return out
 
 
@@ -104,7 +108,13 @@ def scenario(c, inst):
         shape = tuple(inst["shape"])
         size = int(np.prod(shape)) if shape else 1
         t0 = c.real("t0")
-        if inst["param"] == "width":
+        if inst["param"] == "intknots":
+            # knots given as integers (python ints / numpy int64 scalars, e.g. taken from np.arange): concrete values, the rest symbolic
+            k0, k1 = inst["knots"]
+            conv = {"int": int, "int64": np.int64}[inst["knot_type"]]
+            c.assume(c.eq(t0, k0))
+            t0, t1 = conv(k0), conv(k1)
+        elif inst["param"] == "width":
             w = c.real("w")
             c.assume(w != 0)
             t1 = t0 + w
